@@ -371,6 +371,7 @@ pub fn eval_history(h: &History, focus: Focus, profile: &str, full: bool) -> Cas
             "symmetric-user" => "family_symmetric_user",
             "congruence-chain" => "family_congruence_chain",
             "full-symmetry-pinned-users" => "family_full_symmetry_pinned_users",
+            "symmetry-with-redundancy" => "family_symmetry_with_redundancy",
             _ => "family_slot_variant",
         });
     }
